@@ -202,23 +202,27 @@ inductive Reach (inp : List Entry) : Name → Name → Prop
       k ≠ [] → get inp k = some e → e.isLink = true →
       Reach inp (cleanEntryName e.linkName) d → Reach inp k d
 
-/-- `k` is needed by one of its own prerequisites (only possible with a parent/hardlink cycle). -/
-def SelfReach (inp : List Entry) (k : Name) : Prop :=
-  ∃ e, k ≠ [] ∧ get inp k = some e ∧
-    (Reach inp k.dropLast k ∨ (e.isLink = true ∧ Reach inp (cleanEntryName e.linkName) k))
+/-- `b` is needed by a prerequisite of the tar entry `a` (its parent directory or hardlink target). -/
+def StrictReach (inp : List Entry) (a b : Name) : Prop :=
+  a ≠ [] ∧ ∃ e, get inp a = some e ∧
+    (Reach inp a.dropLast b ∨ (e.isLink = true ∧ Reach inp (cleanEntryName e.linkName) b))
 
-/-- The error status of `moveRec` as a pure function of the tar (it does not depend on what has
-been moved already, `moveRec_status`). -/
-def resolve (inp : List Entry) : Nat → Name → Status
-  | 0, _ => .diverge
-  | fuel + 1, k =>
+/-- `k` is needed by one of its own prerequisites: `k` lies on a cycle of the parent/hardlink graph. -/
+def SelfReach (inp : List Entry) (k : Name) : Prop := StrictReach inp k k
+
+/-- The error status of `moveRecVisiting` as a pure function of the tar and the recursion path (it
+does not depend on what has been moved already, `moveRec_status`). -/
+def resolve (inp : List Entry) : Nat → List Name → Name → Status
+  | 0, _, _ => .diverge
+  | fuel + 1, vis, k =>
     if k = [] then .ok
     else
       match get inp k with
       | none => .notFound
       | some e =>
-        if resolve inp fuel k.dropLast ≠ .ok then resolve inp fuel k.dropLast
-        else if e.isLink then resolve inp fuel (cleanEntryName e.linkName) else .ok
+        if vis.contains k then .cycle
+        else if resolve inp fuel (k :: vis) k.dropLast ≠ .ok then resolve inp fuel (k :: vis) k.dropLast
+        else if e.isLink then resolve inp fuel (k :: vis) (cleanEntryName e.linkName) else .ok
 
 /-- The prerequisite `d` is satisfied by the entries `pre`: unless `d` is the root it is an entry of
 the tar, and that entry (for the root: if there is one) is in `pre`. -/
@@ -318,57 +322,69 @@ theorem Inv.add {inp st} (h : Inv inp st) {k : Name} {e : Entry} (hg : get inp k
     exact ⟨this.1.mono (fun x hx => List.mem_reverse.mpr hx),
       fun hl => (this.2 hl).mono (fun x hx => List.mem_reverse.mpr hx)⟩
 
-theorem moveRec_zero (inp k st) : moveRec inp 0 k st = (st, .diverge) := rfl
+theorem moveRec_zero (inp k st vis) : moveRecVisiting inp 0 k st vis = (st, .diverge) := rfl
 
-theorem moveRec_root (inp fuel st) : moveRec inp (fuel + 1) [] st =
+theorem moveRec_root (inp fuel st vis) : moveRecVisiting inp (fuel + 1) [] st vis =
     match get inp [] with
     | some e => if st.picked.contains [] then (st, .ok) else (st.add [] e, .ok)
     | none => (st, .ok) := by
-  cases h : get inp [] <;> simp [moveRec, h]
+  cases h : get inp [] <;> simp [moveRecVisiting, h]
 
-theorem moveRec_missing {inp st} (h : Inv inp st) (fuel) {k : Name} (hk : k ≠ [])
-    (hg : get inp k = none) : moveRec inp (fuel + 1) k st = (st, .notFound) := by
+theorem moveRec_missing {inp st} (h : Inv inp st) (fuel vis) {k : Name} (hk : k ≠ [])
+    (hg : get inp k = none) : moveRecVisiting inp (fuel + 1) k st vis = (st, .notFound) := by
   have := h.check k
-  simp only [moveRec, hk, if_false]
+  simp only [moveRecVisiting, hk, if_false]
   rw [this, hg]
   simp
 
-theorem moveRec_found {inp st} (h : Inv inp st) (fuel) {k : Name} (hk : k ≠ []) {e : Entry}
-    (hg : get inp k = some e) : moveRec inp (fuel + 1) k st =
-      (let r1 := moveRec inp fuel k.dropLast st
+theorem moveRec_cycle {inp st} (h : Inv inp st) (fuel) {vis : List Name} {k : Name} (hk : k ≠ [])
+    {e : Entry} (hg : get inp k = some e) (hv : k ∈ vis) :
+    moveRecVisiting inp (fuel + 1) k st vis = (st, .cycle) := by
+  have := h.check k
+  simp only [moveRecVisiting, hk, if_false]
+  rw [this, hg]
+  simp [hv]
+
+theorem moveRec_found {inp st} (h : Inv inp st) (fuel) {vis : List Name} {k : Name} (hk : k ≠ [])
+    {e : Entry} (hg : get inp k = some e) (hv : k ∉ vis) :
+    moveRecVisiting inp (fuel + 1) k st vis =
+      (let r1 := moveRecVisiting inp fuel k.dropLast st (k :: vis)
        if r1.2 ≠ .ok then r1 else
-       let r2 := if e.isLink then moveRec inp fuel (cleanEntryName e.linkName) r1.1 else (r1.1, .ok)
+       let r2 := if e.isLink then moveRecVisiting inp fuel (cleanEntryName e.linkName) r1.1 (k :: vis) else (r1.1, .ok)
        if r2.2 ≠ .ok then r2 else
        if r2.1.picked.contains k then (r2.1, .ok) else (r2.1.add k e, .ok)) := by
   have := h.check k
-  simp only [moveRec, hk, if_false]
+  simp only [moveRecVisiting, hk, if_false]
   rw [this, hg]
-  simp
+  simp [hv]
 
-/-- What one call `moveRec inp fuel k st = r` guarantees. -/
-structure MovePost (inp : List Entry) (fuel : Nat) (k : Name) (st : MState) (r : MState × Status) :
-    Prop where
+/-- What one call `moveRecVisiting inp fuel k st vis = r` guarantees (`[] ∉ vis`: the root is never
+put on the recursion path). -/
+structure MovePost (inp : List Entry) (fuel : Nat) (k : Name) (st : MState) (vis : List Name)
+    (r : MState × Status) : Prop where
   inv : Inv inp r.1
-  block : ∃ b, r.1.out = st.out ++ b ∧ (∀ x ∈ b, Reach inp k x.key) ∧
-    (r.2 = .ok → ∀ e, get inp k = some e → e ∉ st.out → b.getLast? = some e ∨ SelfReach inp k)
+  block : ∃ b, r.1.out = st.out ++ b ∧ (∀ x ∈ b, Reach inp k x.key) ∧ (∀ x ∈ b, x.key ∉ vis) ∧
+    (r.2 = .ok → ∀ e, get inp k = some e → e ∉ st.out → b.getLast? = some e)
   placed : r.2 = .ok → PlacedIn inp r.1.out k
-  status : r.2 = resolve inp fuel k
+  status : r.2 = resolve inp fuel vis k
 
 theorem moveRec_spec (inp : List Entry) :
-    ∀ fuel k st, Inv inp st → MovePost inp fuel k st (moveRec inp fuel k st) := by
+    ∀ fuel k st vis, Inv inp st → [] ∉ vis →
+      MovePost inp fuel k st vis (moveRecVisiting inp fuel k st vis) := by
   intro fuel
   induction fuel with
   | zero =>
-    intro k st h
-    exact ⟨h, ⟨[], by simp [moveRec_zero], by simp, by simp [moveRec_zero]⟩, by simp [moveRec_zero], rfl⟩
+    intro k st vis h _
+    exact ⟨h, ⟨[], by simp [moveRec_zero], by simp, by simp, by simp [moveRec_zero]⟩,
+      by simp [moveRec_zero], rfl⟩
   | succ f ih =>
-    intro k st h
+    intro k st vis h hroot
     by_cases hk : k = []
     · subst hk
       rw [moveRec_root]
       cases hg : get inp [] with
       | none =>
-        refine ⟨h, ⟨[], by simp, by simp, ?_⟩, ?_, by simp [resolve]⟩
+        refine ⟨h, ⟨[], by simp, by simp, by simp, ?_⟩, ?_, by simp [resolve]⟩
         · intro _ e he; rw [hg] at he; cases he
         · intro _; exact ⟨fun hne => absurd rfl hne, fun x hx => by rw [hg] at hx; cases hx⟩
       | some e =>
@@ -377,7 +393,7 @@ theorem moveRec_spec (inp : List Entry) :
         · have hp' : [] ∈ st.picked := by simpa using hp
           have hmem : e ∈ st.out := h.mem_of_picked hg hp'
           simp only [hp, if_true]
-          refine ⟨h, ⟨[], by simp, by simp, ?_⟩, ?_, by simp [resolve]⟩
+          refine ⟨h, ⟨[], by simp, by simp, by simp, ?_⟩, ?_, by simp [resolve]⟩
           · intro _ e' he' hne
             rw [hg] at he'; cases he'
             exact absurd hmem hne
@@ -386,50 +402,65 @@ theorem moveRec_spec (inp : List Entry) :
         · have hp' : [] ∉ st.picked := by simpa using hp
           simp only [hp]
           have hinv : Inv inp (st.add [] e) := h.add hg hp' (fun hne => absurd hek hne)
-          refine ⟨hinv, ⟨[e], rfl, ?_, ?_⟩, ?_, by simp [resolve]⟩
+          refine ⟨hinv, ⟨[e], rfl, ?_, ?_, ?_⟩, ?_, by simp [resolve]⟩
           · intro x hx
             simp only [List.mem_singleton] at hx
             subst hx
             rw [hek]; exact Reach.refl _
+          · intro x hx
+            simp only [List.mem_singleton] at hx
+            subst hx
+            rw [hek]; exact hroot
           · intro _ e' he' _
             rw [hg] at he'; cases he'
-            exact Or.inl rfl
+            rfl
           · intro _
             exact ⟨fun hne => absurd rfl hne, fun x hx => by
               rw [hg] at hx; cases hx; simp [MState.add]⟩
     · cases hg : get inp k with
       | none =>
-        rw [moveRec_missing h f hk hg]
-        refine ⟨h, ⟨[], by simp, by simp, by simp⟩, by simp, ?_⟩
+        rw [moveRec_missing h f vis hk hg]
+        refine ⟨h, ⟨[], by simp, by simp, by simp, by simp⟩, by simp, ?_⟩
         simp [resolve, hk, hg]
       | some e =>
         have hek : e.key = k := (get_some hg).2
-        rw [moveRec_found h f hk hg]
-        have h1 := ih k.dropLast st h
-        generalize moveRec inp f k.dropLast st = r1 at h1
-        obtain ⟨b1, hb1, hreach1, _⟩ := h1.block
-        have hres : resolve inp (f + 1) k =
-            if resolve inp f k.dropLast ≠ .ok then resolve inp f k.dropLast
-            else if e.isLink then resolve inp f (cleanEntryName e.linkName) else .ok := by
-          simp [resolve, hk, hg]
+        by_cases hv : k ∈ vis
+        · rw [moveRec_cycle h f hk hg hv]
+          refine ⟨h, ⟨[], by simp, by simp, by simp, by simp⟩, by simp, ?_⟩
+          simp [resolve, hk, hg, hv]
+        rw [moveRec_found h f hk hg hv]
+        have hroot' : [] ∉ k :: vis := by
+          intro hm
+          rcases List.mem_cons.mp hm with h' | h'
+          · exact hk h'.symm
+          · exact hroot h'
+        have h1 := ih k.dropLast st (k :: vis) h hroot'
+        generalize moveRecVisiting inp f k.dropLast st (k :: vis) = r1 at h1
+        obtain ⟨b1, hb1, hreach1, hvis1, _⟩ := h1.block
+        have hres : resolve inp (f + 1) vis k =
+            if resolve inp f (k :: vis) k.dropLast ≠ .ok then resolve inp f (k :: vis) k.dropLast
+            else if e.isLink then resolve inp f (k :: vis) (cleanEntryName e.linkName) else .ok := by
+          simp [resolve, hk, hg, hv]
         by_cases hs1 : r1.2 = .ok
         · -- the parent call succeeded
           have hpl1 := h1.placed hs1
           simp only [hs1, ne_eq, not_true_eq_false, if_false]
           -- the hardlink-target call (or nothing)
-          have h2 : ∃ r2, (if e.isLink then moveRec inp f (cleanEntryName e.linkName) r1.1 else (r1.1, .ok)) = r2 ∧
-              Inv inp r2.1 ∧ (∃ b2, r2.1.out = r1.1.out ++ b2 ∧ (∀ x ∈ b2, e.isLink = true ∧ Reach inp (cleanEntryName e.linkName) x.key)) ∧
+          have h2 : ∃ r2, (if e.isLink then moveRecVisiting inp f (cleanEntryName e.linkName) r1.1 (k :: vis) else (r1.1, .ok)) = r2 ∧
+              Inv inp r2.1 ∧ (∃ b2, r2.1.out = r1.1.out ++ b2 ∧
+                (∀ x ∈ b2, e.isLink = true ∧ Reach inp (cleanEntryName e.linkName) x.key) ∧
+                (∀ x ∈ b2, x.key ∉ k :: vis)) ∧
               (r2.2 = .ok → e.isLink = true → PlacedIn inp r2.1.out (cleanEntryName e.linkName)) ∧
-              r2.2 = (if e.isLink then resolve inp f (cleanEntryName e.linkName) else .ok) := by
+              r2.2 = (if e.isLink then resolve inp f (k :: vis) (cleanEntryName e.linkName) else .ok) := by
             by_cases hl : e.isLink = true
-            · have h2 := ih (cleanEntryName e.linkName) r1.1 h1.inv
+            · have h2 := ih (cleanEntryName e.linkName) r1.1 (k :: vis) h1.inv hroot'
               rw [if_pos hl]
-              obtain ⟨b2, hb2, hreach2, _⟩ := h2.block
-              exact ⟨_, rfl, h2.inv, ⟨b2, hb2, fun x hx => ⟨hl, hreach2 x hx⟩⟩, fun hok _ => h2.placed hok,
+              obtain ⟨b2, hb2, hreach2, hvis2, _⟩ := h2.block
+              exact ⟨_, rfl, h2.inv, ⟨b2, hb2, fun x hx => ⟨hl, hreach2 x hx⟩, hvis2⟩, fun hok _ => h2.placed hok,
                 by rw [if_pos hl]; exact h2.status⟩
             · rw [if_neg hl, if_neg hl]
-              exact ⟨_, rfl, h1.inv, ⟨[], by simp, by simp⟩, fun _ hl' => absurd hl' hl, by simp⟩
-          obtain ⟨r2, hr2, hinv2, ⟨b2, hb2, hreach2⟩, hpl2, hst2⟩ := h2
+              exact ⟨_, rfl, h1.inv, ⟨[], by simp, by simp, by simp⟩, fun _ hl' => absurd hl' hl, by simp⟩
+          obtain ⟨r2, hr2, hinv2, ⟨b2, hb2, hreach2, hvis2⟩, hpl2, hst2⟩ := h2
           rw [hr2]
           have hsub12 : ∀ x ∈ r1.1.out, x ∈ r2.1.out := fun x hx => by rw [hb2]; exact List.mem_append_left _ hx
           have hreachB : ∀ x ∈ b1 ++ b2, Reach inp k x.key := by
@@ -437,24 +468,29 @@ theorem moveRec_spec (inp : List Entry) :
             rcases List.mem_append.mp hx with hx | hx
             · exact Reach.parent hk hg (hreach1 x hx)
             · exact Reach.link hk hg (hreach2 x hx).1 (hreach2 x hx).2
+          have hvisB : ∀ x ∈ b1 ++ b2, x.key ∉ k :: vis := by
+            intro x hx
+            rcases List.mem_append.mp hx with hx | hx
+            · exact hvis1 x hx
+            · exact hvis2 x hx
+          have hvisB' : ∀ x ∈ b1 ++ b2, x.key ∉ vis :=
+            fun x hx hm => hvisB x hx (List.mem_cons_of_mem _ hm)
           by_cases hs2 : r2.2 = .ok
           · simp only [hs2, not_true_eq_false, if_false]
-            have hstat : Status.ok = resolve inp (f + 1) k := by
+            have hstat : Status.ok = resolve inp (f + 1) vis k := by
               rw [hres, ← h1.status, hs1, ← hst2, hs2]; simp
             by_cases hp : r2.1.picked.contains k = true
             · have hp' : k ∈ r2.1.picked := by simpa using hp
               have hmem : e ∈ r2.1.out := hinv2.mem_of_picked hg hp'
               simp only [hp, if_true]
-              refine ⟨hinv2, ⟨b1 ++ b2, by rw [hb2, hb1, List.append_assoc], hreachB, ?_⟩, ?_, hstat⟩
+              refine ⟨hinv2, ⟨b1 ++ b2, by rw [hb2, hb1, List.append_assoc], hreachB, hvisB', ?_⟩, ?_, hstat⟩
               · intro _ e' he' hne
                 rw [hg] at he'; cases he'
-                right
-                rw [hb2, hb1] at hmem
+                -- `e` was not placed before, and the sub-calls never place a name on the path
+                rw [hb2, hb1, List.append_assoc] at hmem
                 rcases List.mem_append.mp hmem with hm | hm
-                · rcases List.mem_append.mp hm with hm | hm
-                  · exact absurd hm hne
-                  · exact ⟨e, hk, hg, Or.inl (hek ▸ hreach1 e hm)⟩
-                · exact ⟨e, hk, hg, Or.inr ⟨(hreach2 e hm).1, hek ▸ (hreach2 e hm).2⟩⟩
+                · exact absurd hm hne
+                · exact absurd (by rw [hek]; exact List.mem_cons_self ..) (hvisB e hm)
               · intro _
                 exact ⟨fun _ => by simp [hg], fun x hx => by rw [hg] at hx; cases hx; exact hmem⟩
             · have hp' : k ∉ r2.1.picked := by simpa using hp
@@ -464,7 +500,7 @@ theorem moveRec_spec (inp : List Entry) :
                 rw [hek]
                 exact ⟨hpl1.mono hsub12, fun hl => hpl2 hs2 hl⟩
               have hinv3 : Inv inp (r2.1.add k e) := hinv2.add hg hp' hclosed
-              refine ⟨hinv3, ⟨b1 ++ b2 ++ [e], ?_, ?_, ?_⟩, ?_, hstat⟩
+              refine ⟨hinv3, ⟨b1 ++ b2 ++ [e], ?_, ?_, ?_, ?_⟩, ?_, hstat⟩
               · simp only [MState.add]; rw [hb2, hb1]; simp [List.append_assoc]
               · intro x hx
                 rcases List.mem_append.mp hx with hx | hx
@@ -472,28 +508,38 @@ theorem moveRec_spec (inp : List Entry) :
                 · simp only [List.mem_singleton] at hx
                   subst hx
                   rw [hek]; exact Reach.refl _
+              · intro x hx
+                rcases List.mem_append.mp hx with hx | hx
+                · exact hvisB' x hx
+                · simp only [List.mem_singleton] at hx
+                  subst hx
+                  rw [hek]; exact hv
               · intro _ e' he' _
                 rw [hg] at he'; cases he'
-                left
                 simp
               · intro _
                 exact ⟨fun _ => by simp [hg], fun x hx => by rw [hg] at hx; cases hx; simp [MState.add]⟩
           · -- the hardlink-target call failed
             simp only [hs2, not_false_eq_true, if_true]
-            refine ⟨hinv2, ⟨b1 ++ b2, by rw [hb2, hb1, List.append_assoc], hreachB, fun h' => absurd h' hs2⟩,
+            refine ⟨hinv2, ⟨b1 ++ b2, by rw [hb2, hb1, List.append_assoc], hreachB, hvisB', fun h' => absurd h' hs2⟩,
               fun h' => absurd h' hs2, ?_⟩
             rw [hres, ← h1.status, hs1, hst2]; simp
         · -- the parent call failed
           simp only [hs1, ne_eq, not_false_eq_true, if_true]
-          refine ⟨h1.inv, ⟨b1, hb1, fun x hx => Reach.parent hk hg (hreach1 x hx), fun h' => absurd h' hs1⟩,
+          refine ⟨h1.inv, ⟨b1, hb1, fun x hx => Reach.parent hk hg (hreach1 x hx),
+            fun x hx hm => hvis1 x hx (List.mem_cons_of_mem _ hm), fun h' => absurd h' hs1⟩,
             fun h' => absurd h' hs1, ?_⟩
           rw [hres, ← h1.status]; simp [hs1]
 
-/-! ## When `moveRec` reports a missing path, and why it terminates -/
+/-! ## When `moveRec` reports an error, and why it terminates -/
 
 /-- Placing `k` needs a name that is not in the tar. -/
 def Missing (inp : List Entry) (k : Name) : Prop :=
   ∃ d, Reach inp k d ∧ d ≠ [] ∧ get inp d = none
+
+/-- Placing `k` runs into a cycle of the parent/hardlink graph. -/
+def ReachesCycle (inp : List Entry) (k : Name) : Prop :=
+  ∃ d, Reach inp k d ∧ SelfReach inp d
 
 theorem reach_root {inp : List Entry} {d : Name} (h : Reach inp [] d) : d = [] := by
   cases h with
@@ -501,43 +547,62 @@ theorem reach_root {inp : List Entry} {d : Name} (h : Reach inp [] d) : d = [] :
   | parent hk _ _ => exact absurd rfl hk
   | link hk _ _ _ => exact absurd rfl hk
 
-theorem resolve_succ_found {inp : List Entry} {k : Name} {e : Entry} (f : Nat) (hk : k ≠ [])
-    (hg : get inp k = some e) : resolve inp (f + 1) k =
-      if resolve inp f k.dropLast ≠ .ok then resolve inp f k.dropLast
-      else if e.isLink then resolve inp f (cleanEntryName e.linkName) else .ok := by
-  simp [resolve, hk, hg]
+theorem reach_trans {inp : List Entry} {a b c : Name} (h1 : Reach inp a b) (h2 : Reach inp b c) :
+    Reach inp a c := by
+  induction h1 with
+  | refl => exact h2
+  | parent hk hg _ ih => exact Reach.parent hk hg (ih h2)
+  | link hk hg hl _ ih => exact Reach.link hk hg hl (ih h2)
+
+theorem StrictReach.step {inp : List Entry} {v k d : Name} (h : StrictReach inp v k)
+    (hr : Reach inp k d) : StrictReach inp v d := by
+  obtain ⟨hv, e, hg, h' | ⟨hl, h'⟩⟩ := h
+  · exact ⟨hv, e, hg, Or.inl (reach_trans h' hr)⟩
+  · exact ⟨hv, e, hg, Or.inr ⟨hl, reach_trans h' hr⟩⟩
+
+theorem resolve_succ_found {inp : List Entry} {vis : List Name} {k : Name} {e : Entry} (f : Nat)
+    (hk : k ≠ []) (hg : get inp k = some e) (hv : k ∉ vis) : resolve inp (f + 1) vis k =
+      if resolve inp f (k :: vis) k.dropLast ≠ .ok then resolve inp f (k :: vis) k.dropLast
+      else if e.isLink then resolve inp f (k :: vis) (cleanEntryName e.linkName) else .ok := by
+  simp [resolve, hk, hg, hv]
+
+theorem resolve_succ_cycle {inp : List Entry} {vis : List Name} {k : Name} {e : Entry} (f : Nat)
+    (hk : k ≠ []) (hg : get inp k = some e) (hv : k ∈ vis) : resolve inp (f + 1) vis k = .cycle := by
+  simp [resolve, hk, hg, hv]
 
 theorem resolve_notFound {inp : List Entry} :
-    ∀ f k, resolve inp f k = .notFound → Missing inp k := by
+    ∀ f vis k, resolve inp f vis k = .notFound → Missing inp k := by
   intro f
   induction f with
-  | zero => intro k h; simp [resolve] at h
+  | zero => intro vis k h; simp [resolve] at h
   | succ f ih =>
-    intro k h
+    intro vis k h
     by_cases hk : k = []
     · simp [resolve, hk] at h
     · cases hg : get inp k with
       | none => exact ⟨k, Reach.refl _, hk, hg⟩
       | some e =>
-        rw [resolve_succ_found f hk hg] at h
-        by_cases h1 : resolve inp f k.dropLast = .ok
+        by_cases hv : k ∈ vis
+        · rw [resolve_succ_cycle f hk hg hv] at h; cases h
+        rw [resolve_succ_found f hk hg hv] at h
+        by_cases h1 : resolve inp f (k :: vis) k.dropLast = .ok
         · simp only [h1, ne_eq, not_true_eq_false, if_false] at h
           by_cases hl : e.isLink = true
           · simp only [hl, if_true] at h
-            obtain ⟨d, hr, hd, hn⟩ := ih _ h
+            obtain ⟨d, hr, hd, hn⟩ := ih _ _ h
             exact ⟨d, Reach.link hk hg hl hr, hd, hn⟩
           · simp [hl] at h
         · simp only [ne_eq, h1, not_false_eq_true, if_true] at h
-          obtain ⟨d, hr, hd, hn⟩ := ih _ h
+          obtain ⟨d, hr, hd, hn⟩ := ih _ _ h
           exact ⟨d, Reach.parent hk hg hr, hd, hn⟩
 
 theorem resolve_ok {inp : List Entry} :
-    ∀ f k, resolve inp f k = .ok → ¬ Missing inp k := by
+    ∀ f vis k, resolve inp f vis k = .ok → ¬ Missing inp k := by
   intro f
   induction f with
-  | zero => intro k h; simp [resolve] at h
+  | zero => intro vis k h; simp [resolve] at h
   | succ f ih =>
-    intro k h
+    intro vis k h
     rintro ⟨d, hr, hd, hn⟩
     by_cases hk : k = []
     · subst hk
@@ -545,134 +610,106 @@ theorem resolve_ok {inp : List Entry} :
     · cases hg : get inp k with
       | none => simp [resolve, hk, hg] at h
       | some e =>
-        rw [resolve_succ_found f hk hg] at h
-        by_cases h1 : resolve inp f k.dropLast = .ok
+        by_cases hv : k ∈ vis
+        · rw [resolve_succ_cycle f hk hg hv] at h; cases h
+        rw [resolve_succ_found f hk hg hv] at h
+        by_cases h1 : resolve inp f (k :: vis) k.dropLast = .ok
         · simp only [h1, ne_eq, not_true_eq_false, if_false] at h
           cases hr with
           | refl => rw [hg] at hn; cases hn
-          | parent _ _ hr' => exact ih _ h1 ⟨d, hr', hd, hn⟩
+          | parent _ _ hr' => exact ih _ _ h1 ⟨d, hr', hd, hn⟩
           | link _ hg' hl hr' =>
             rw [hg] at hg'; cases hg'
             simp only [hl, if_true] at h
-            exact ih _ h ⟨d, hr', hd, hn⟩
+            exact ih _ _ h ⟨d, hr', hd, hn⟩
         · simp only [ne_eq, h1, not_false_eq_true, if_true] at h
+
+/-- The cycle error is reported only when there is a cycle: every name on the recursion path
+needs the current name, so meeting one of them again closes a cycle. -/
+theorem resolve_cycle {inp : List Entry} :
+    ∀ f vis k, (∀ v ∈ vis, StrictReach inp v k) → resolve inp f vis k = .cycle →
+      ReachesCycle inp k := by
+  intro f
+  induction f with
+  | zero => intro vis k _ h; simp [resolve] at h
+  | succ f ih =>
+    intro vis k hpath h
+    by_cases hk : k = []
+    · simp [resolve, hk] at h
+    · cases hg : get inp k with
+      | none => simp [resolve, hk, hg] at h
+      | some e =>
+        by_cases hv : k ∈ vis
+        · exact ⟨k, Reach.refl _, hpath k hv⟩
+        rw [resolve_succ_found f hk hg hv] at h
+        by_cases h1 : resolve inp f (k :: vis) k.dropLast = .ok
+        · simp only [h1, ne_eq, not_true_eq_false, if_false] at h
+          by_cases hl : e.isLink = true
+          · simp only [hl, if_true] at h
+            have hstep : Reach inp k (cleanEntryName e.linkName) := Reach.link hk hg hl (Reach.refl _)
+            obtain ⟨d, hr, hd⟩ := ih (k :: vis) _ (by
+              intro v hv'
+              rcases List.mem_cons.mp hv' with rfl | hv''
+              · exact ⟨hk, e, hg, Or.inr ⟨hl, Reach.refl _⟩⟩
+              · exact (hpath v hv'').step hstep) h
+            exact ⟨d, Reach.link hk hg hl hr, hd⟩
+          · simp [hl] at h
+        · simp only [ne_eq, h1, not_false_eq_true, if_true] at h
+          have hstep : Reach inp k k.dropLast := Reach.parent hk hg (Reach.refl _)
+          obtain ⟨d, hr, hd⟩ := ih (k :: vis) _ (by
+            intro v hv'
+            rcases List.mem_cons.mp hv' with rfl | hv''
+            · exact ⟨hk, e, hg, Or.inl (Reach.refl _)⟩
+            · exact (hpath v hv'').step hstep) h
+          exact ⟨d, Reach.parent hk hg hr, hd⟩
+
+/-- Termination, unconditionally: the names on the recursion path are pairwise different entries
+of the tar, so the path is never longer than the tar and `inp.length + 1` fuel is never used up. -/
+theorem resolve_terminates_aux {inp : List Entry} :
+    ∀ f (vis : List Name) k, vis.Nodup → (∀ v ∈ vis, v ∈ inp.map Entry.key) →
+      inp.length + 1 ≤ vis.length + f → resolve inp f vis k ≠ .diverge := by
+  intro f
+  induction f with
+  | zero =>
+    intro vis k hnd hsub hlen
+    have := List.Nodup.length_le_of_subset hnd (fun v hv => hsub v hv)
+    simp only [List.length_map] at this
+    omega
+  | succ f ih =>
+    intro vis k hnd hsub hlen
+    by_cases hk : k = []
+    · simp [resolve, hk]
+    · cases hg : get inp k with
+      | none => simp [resolve, hk, hg]
+      | some e =>
+        by_cases hv : k ∈ vis
+        · rw [resolve_succ_cycle f hk hg hv]; simp
+        rw [resolve_succ_found f hk hg hv]
+        have hnd' : (k :: vis).Nodup := List.nodup_cons.mpr ⟨hv, hnd⟩
+        have hsub' : ∀ v ∈ k :: vis, v ∈ inp.map Entry.key := by
+          intro v hv'
+          rcases List.mem_cons.mp hv' with rfl | hv''
+          · exact List.mem_map.mpr ⟨e, (get_some hg).1, (get_some hg).2⟩
+          · exact hsub v hv''
+        have hlen' : inp.length + 1 ≤ (k :: vis).length + f := by simp only [List.length_cons]; omega
+        by_cases h1 : resolve inp f (k :: vis) k.dropLast = .ok
+        · simp only [h1, ne_eq, not_true_eq_false, if_false]
+          by_cases hl : e.isLink = true
+          · simp only [hl, if_true]
+            exact ih _ _ hnd' hsub' hlen'
+          · simp [hl]
+        · simp only [ne_eq, h1, not_false_eq_true, if_true]
+          exact ih _ _ hnd' hsub' hlen'
+
+theorem resolve_terminates (inp : List Entry) (k : Name) :
+    resolve inp (moveFuel inp) [] k ≠ .diverge :=
+  resolve_terminates_aux _ [] k (by simp) (by simp) (by simp [moveFuel])
 
 /-- The parent/hardlink graph of the tar has no cycle: some rank strictly decreases from every
 non-root entry to its parent directory and, for a hardlink, to its target. -/
 def NoLinkCycle (inp : List Entry) : Prop :=
   ∃ rank : Name → Nat, ∀ k e, k ≠ [] → get inp k = some e →
     rank k.dropLast < rank k ∧ (e.isLink = true → rank (cleanEntryName e.linkName) < rank k)
-
-theorem countP_lt_of_imp {p q : Entry → Bool} {l : List Entry}
-    (hpq : ∀ x ∈ l, p x = true → q x = true) (hex : ∃ x ∈ l, q x = true ∧ p x = false) :
-    l.countP p < l.countP q := by
-  induction l with
-  | nil => obtain ⟨x, hx, _⟩ := hex; cases hx
-  | cons a l ih =>
-    have hmono : l.countP p ≤ l.countP q :=
-      List.countP_mono_left (fun x hx => hpq x (List.mem_cons_of_mem _ hx))
-    have ha := hpq a (List.mem_cons_self ..)
-    simp only [List.countP_cons]
-    obtain ⟨x, hx, hq, hp⟩ := hex
-    rcases List.mem_cons.mp hx with rfl | hx'
-    · rw [if_pos hq, if_neg (by simp [hp])]
-      omega
-    · have := ih (fun x hx => hpq x (List.mem_cons_of_mem _ hx)) ⟨x, hx', hq, hp⟩
-      by_cases hpa : p a = true
-      · rw [if_pos hpa, if_pos (ha hpa)]; omega
-      · rw [if_neg hpa]
-        split <;> omega
-
-/-- Number of entries ranked strictly below `k`. -/
-def rankCount (inp : List Entry) (rank : Name → Nat) (k : Name) : Nat :=
-  inp.countP (fun x => decide (rank x.key < rank k))
-
-/-- Fuel that `resolve`/`moveRec` needs at `k`. -/
-def fuelNeed (inp : List Entry) (rank : Name → Nat) (k : Name) : Nat :=
-  match get inp k with
-  | none => 1
-  | some _ => if k = [] then 1 else rankCount inp rank k + 2
-
-theorem rankCount_lt {inp : List Entry} {rank : Name → Nat} {d k : Name} {x : Entry}
-    (hlt : rank d < rank k) (hg : get inp d = some x) : rankCount inp rank d < rankCount inp rank k := by
-  apply countP_lt_of_imp
-  · intro y _ hy
-    simp only [decide_eq_true_eq] at hy ⊢
-    omega
-  · refine ⟨x, (get_some hg).1, ?_, ?_⟩
-    · simp only [decide_eq_true_eq]; rw [(get_some hg).2]; exact hlt
-    · simp only [decide_eq_false_iff_not]; rw [(get_some hg).2]; omega
-
-theorem rankCount_lt_length {inp : List Entry} {rank : Name → Nat} {k : Name} {x : Entry}
-    (hg : get inp k = some x) : rankCount inp rank k < inp.length := by
-  have : rankCount inp rank k < inp.countP (fun _ => true) := by
-    apply countP_lt_of_imp
-    · intro _ _ _; rfl
-    · refine ⟨x, (get_some hg).1, rfl, ?_⟩
-      simp only [decide_eq_false_iff_not]; rw [(get_some hg).2]; omega
-  simpa using this
-
-theorem fuelNeed_pos (inp : List Entry) (rank : Name → Nat) (k : Name) : 1 ≤ fuelNeed inp rank k := by
-  unfold fuelNeed
-  split
-  · exact Nat.le_refl _
-  · split <;> omega
-
-theorem fuelNeed_found {inp : List Entry} {rank : Name → Nat} {k : Name} {e : Entry} (hk : k ≠ [])
-    (hg : get inp k = some e) : fuelNeed inp rank k = rankCount inp rank k + 2 := by
-  unfold fuelNeed
-  rw [hg]
-  simp [hk]
-
-theorem fuelNeed_dep {inp : List Entry} {rank : Name → Nat} {d k : Name}
-    (hlt : rank d < rank k) : fuelNeed inp rank d ≤ rankCount inp rank k + 1 := by
-  unfold fuelNeed
-  split
-  · omega
-  · rename_i x hx
-    split
-    · omega
-    · have := rankCount_lt hlt hx
-      omega
-
-theorem fuelNeed_le (inp : List Entry) (rank : Name → Nat) (k : Name) :
-    fuelNeed inp rank k ≤ moveFuel inp := by
-  unfold fuelNeed moveFuel
-  split
-  · omega
-  · rename_i x hx
-    split
-    · omega
-    · have := rankCount_lt_length (rank := rank) hx
-      omega
-
-theorem resolve_terminates {inp : List Entry} (h : NoLinkCycle inp) (k : Name) :
-    resolve inp (moveFuel inp) k ≠ .diverge := by
-  obtain ⟨rank, hrank⟩ := h
-  have main : ∀ f k, fuelNeed inp rank k ≤ f → resolve inp f k ≠ .diverge := by
-    intro f
-    induction f with
-    | zero => intro k hn; have := fuelNeed_pos inp rank k; omega
-    | succ f ih =>
-      intro k hn
-      by_cases hk : k = []
-      · simp [resolve, hk]
-      · cases hg : get inp k with
-        | none => simp [resolve, hk, hg]
-        | some e =>
-          have hnk := fuelNeed_found (rank := rank) hk hg
-          have hr := hrank k e hk hg
-          rw [resolve_succ_found f hk hg]
-          have hp := ih k.dropLast (by have := fuelNeed_dep (inp := inp) hr.1; omega)
-          by_cases h1 : resolve inp f k.dropLast = .ok
-          · simp only [h1, ne_eq, not_true_eq_false, if_false]
-            by_cases hl : e.isLink = true
-            · simp only [hl, if_true]
-              exact ih _ (by have := fuelNeed_dep (inp := inp) (hr.2 hl); omega)
-            · simp [hl]
-          · simp only [ne_eq, h1, not_false_eq_true, if_true]
-            exact hp
-  exact main _ _ (fuelNeed_le inp rank k)
 
 theorem reach_rank {inp : List Entry} {rank : Name → Nat}
     (hrank : ∀ k e, k ≠ [] → get inp k = some e →
@@ -685,7 +722,7 @@ theorem reach_rank {inp : List Entry} {rank : Name → Nat}
 
 theorem not_selfReach {inp : List Entry} (h : NoLinkCycle inp) (k : Name) : ¬ SelfReach inp k := by
   obtain ⟨rank, hrank⟩ := h
-  rintro ⟨e, hk, hg, hr | ⟨hl, hr⟩⟩
+  rintro ⟨hk, e, hg, hr | ⟨hl, hr⟩⟩
   · have := reach_rank hrank hr
     have := (hrank k e hk hg).1
     omega
@@ -693,31 +730,24 @@ theorem not_selfReach {inp : List Entry} (h : NoLinkCycle inp) (k : Name) : ¬ S
     have := (hrank k e hk hg).2 hl
     omega
 
-theorem moveRec_status {inp : List Entry} {st : MState} (h : Inv inp st) (fuel : Nat) (k : Name) :
-    (moveRec inp fuel k st).2 = resolve inp fuel k :=
-  (moveRec_spec inp fuel k st h).status
+theorem not_reachesCycle {inp : List Entry} (h : NoLinkCycle inp) (k : Name) : ¬ ReachesCycle inp k :=
+  fun ⟨d, _, hd⟩ => not_selfReach h d hd
 
-theorem resolve_cases {inp : List Entry} (hnc : NoLinkCycle inp) (k : Name) :
-    (resolve inp (moveFuel inp) k = .ok ∧ ¬ Missing inp k) ∨
-    (resolve inp (moveFuel inp) k = .notFound ∧ Missing inp k) := by
-  cases h : resolve inp (moveFuel inp) k with
-  | ok => exact Or.inl ⟨rfl, resolve_ok _ _ h⟩
-  | notFound => exact Or.inr ⟨rfl, resolve_notFound _ _ h⟩
-  | diverge => exact absurd h (resolve_terminates hnc k)
+theorem moveRec_status {inp : List Entry} {st : MState} (h : Inv inp st) (fuel : Nat) (k : Name) :
+    (moveRec inp fuel k st).2 = resolve inp fuel [] k :=
+  (moveRec_spec inp fuel k st [] h (by simp)).status
 
 /-! ## The loop over the prioritized list -/
 
 /-- The step for the listed path `l`: starting from the group `before`, the block `b` is appended.
 Every entry of `b` is `l` itself or something `l` needs; if nothing `l` needs is missing then
 `l`'s entry is in the group afterwards and, unless it had been placed earlier already, it is the
-LAST entry of the block (all of its not-yet-placed prerequisites come before it) — the
-alternative `SelfReach` needs a cycle in the parent/hardlink graph (`not_selfReach`). -/
+LAST entry of the block (all of its not-yet-placed prerequisites come before it). -/
 def BlockOK (inp : List Entry) (l : String) (before b : List Entry) : Prop :=
   (∀ x ∈ b, Reach inp (cleanEntryName l) x.key) ∧
   (¬ Missing inp (cleanEntryName l) →
     PlacedIn inp (before ++ b) (cleanEntryName l) ∧
-    ∀ e, get inp (cleanEntryName l) = some e → e ∉ before →
-      b.getLast? = some e ∨ SelfReach inp (cleanEntryName l))
+    ∀ e, get inp (cleanEntryName l) = some e → e ∉ before → b.getLast? = some e)
 
 /-- One block per listed path, in the order of the list. -/
 def StepsOK (inp : List Entry) : List String → List Entry → List (List Entry) → Prop
@@ -727,49 +757,55 @@ def StepsOK (inp : List Entry) : List String → List Entry → List (List Entry
 
 /-- The listed paths that are reported back / abort the build. -/
 def missedOf (inp : List Entry) (ls : List String) : List String :=
-  ls.filter (fun l => resolve inp (moveFuel inp) (cleanEntryName l) == .notFound)
+  ls.filter (fun l => resolve inp (moveFuel inp) [] (cleanEntryName l) == .notFound)
 
-/-- What a run of the loop that RETURNED guarantees — for every tar, cyclic or not. -/
+/-- What a run of the loop guarantees — for every tar, cyclic or not. -/
 theorem sortLoop_spec {inp : List Entry} (allow : Bool) :
     ∀ ls st missed, Inv inp st →
+      sortLoop inp (moveFuel inp) allow ls st missed ≠ .diverge ∧
       (sortLoop inp (moveFuel inp) allow ls st missed = .err →
-        allow = false ∧ ∃ l ∈ ls, Missing inp (cleanEntryName l)) ∧
+        (allow = false ∧ ∃ l ∈ ls, Missing inp (cleanEntryName l)) ∨
+        (∃ l ∈ ls, ReachesCycle inp (cleanEntryName l))) ∧
       (∀ st' missed', sortLoop inp (moveFuel inp) allow ls st missed = .done st' missed' →
         Inv inp st' ∧
         (∃ blocks, st'.out = st.out ++ blocks.flatten ∧ StepsOK inp ls st.out blocks) ∧
         missed' = missed ++ missedOf inp ls ∧
-        (∀ l ∈ ls, resolve inp (moveFuel inp) (cleanEntryName l) ≠ .diverge) ∧
+        (∀ l ∈ ls, resolve inp (moveFuel inp) [] (cleanEntryName l) = .ok ∨
+          resolve inp (moveFuel inp) [] (cleanEntryName l) = .notFound) ∧
         (allow = false → ∀ l ∈ ls, ¬ Missing inp (cleanEntryName l))) := by
   intro ls
   induction ls with
   | nil =>
     intro st missed h
-    refine ⟨by simp [sortLoop], ?_⟩
+    refine ⟨by simp [sortLoop], by simp [sortLoop], ?_⟩
     intro st' missed' hd
     simp only [sortLoop, LoopRes.done.injEq] at hd
     obtain ⟨rfl, rfl⟩ := hd
     exact ⟨h, ⟨[], by simp, trivial⟩, by simp [missedOf], by simp, by simp⟩
   | cons l ls ih =>
     intro st missed h
-    have hm := moveRec_spec inp (moveFuel inp) (cleanEntryName l) st h
-    obtain ⟨b, hb, hreach, hlast⟩ := hm.block
+    have hm := moveRec_spec inp (moveFuel inp) (cleanEntryName l) st [] h (by simp)
+    obtain ⟨b, hb, hreach, _, hlast⟩ := hm.block
     have hstat := hm.status
-    rcases hr : moveRec inp (moveFuel inp) (cleanEntryName l) st with ⟨st1, s1⟩
-    rw [hr] at hm hb hlast hstat
+    have hmr : moveRec inp (moveFuel inp) (cleanEntryName l) st =
+        moveRecVisiting inp (moveFuel inp) (cleanEntryName l) st [] := rfl
+    rcases hr : moveRecVisiting inp (moveFuel inp) (cleanEntryName l) st [] with ⟨st1, s1⟩
+    rw [hr] at hm hb hlast hstat hmr
     simp only at hb hlast hstat
     cases s1 with
     | ok =>
-      have hres : resolve inp (moveFuel inp) (cleanEntryName l) = .ok := hstat.symm
-      have hmiss : ¬ Missing inp (cleanEntryName l) := resolve_ok _ _ hres
-      obtain ⟨ih2, ih3⟩ := ih st1 missed hm.inv
+      have hres : resolve inp (moveFuel inp) [] (cleanEntryName l) = .ok := hstat.symm
+      have hmiss : ¬ Missing inp (cleanEntryName l) := resolve_ok _ _ _ hres
+      obtain ⟨ih1, ih2, ih3⟩ := ih st1 missed hm.inv
       have hloop : sortLoop inp (moveFuel inp) allow (l :: ls) st missed =
           sortLoop inp (moveFuel inp) allow ls st1 missed := by
-        simp only [sortLoop, hr]
+        simp only [sortLoop, hmr]
       rw [hloop]
-      refine ⟨?_, ?_⟩
+      refine ⟨ih1, ?_, ?_⟩
       · intro he
-        obtain ⟨ha, l', hl', hm'⟩ := ih2 he
-        exact ⟨ha, l', List.mem_cons_of_mem _ hl', hm'⟩
+        rcases ih2 he with ⟨ha, l', hl', hm'⟩ | ⟨l', hl', hm'⟩
+        · exact Or.inl ⟨ha, l', List.mem_cons_of_mem _ hl', hm'⟩
+        · exact Or.inr ⟨l', List.mem_cons_of_mem _ hl', hm'⟩
       · intro st' missed' hd
         obtain ⟨hinv', ⟨blocks, hout, hsteps⟩, hmissed, hnd, hall⟩ := ih3 st' missed' hd
         refine ⟨hinv', ⟨b :: blocks, ?_, ?_⟩, ?_, ?_, ?_⟩
@@ -783,35 +819,36 @@ theorem sortLoop_spec {inp : List Entry} (allow : Bool) :
           simp [missedOf, hres]
         · intro l' hl'
           rcases List.mem_cons.mp hl' with rfl | hl''
-          · rw [hres]; simp
+          · exact Or.inl hres
           · exact hnd l' hl''
         · intro ha l' hl'
           rcases List.mem_cons.mp hl' with rfl | hl''
           · exact hmiss
           · exact hall ha l' hl''
     | notFound =>
-      have hres : resolve inp (moveFuel inp) (cleanEntryName l) = .notFound := hstat.symm
-      have hmiss : Missing inp (cleanEntryName l) := resolve_notFound _ _ hres
+      have hres : resolve inp (moveFuel inp) [] (cleanEntryName l) = .notFound := hstat.symm
+      have hmiss : Missing inp (cleanEntryName l) := resolve_notFound _ _ _ hres
       cases allow with
       | false =>
         have hloop : sortLoop inp (moveFuel inp) false (l :: ls) st missed = .err := by
-          simp only [sortLoop, hr]
+          simp only [sortLoop, hmr]
           simp
         rw [hloop]
-        refine ⟨fun _ => ⟨rfl, l, List.mem_cons_self .., hmiss⟩, ?_⟩
+        refine ⟨by simp, fun _ => Or.inl ⟨rfl, l, List.mem_cons_self .., hmiss⟩, ?_⟩
         intro st' missed' hd
         cases hd
       | true =>
-        obtain ⟨ih2, ih3⟩ := ih st1 (missed ++ [l]) hm.inv
+        obtain ⟨ih1, ih2, ih3⟩ := ih st1 (missed ++ [l]) hm.inv
         have hloop : sortLoop inp (moveFuel inp) true (l :: ls) st missed =
             sortLoop inp (moveFuel inp) true ls st1 (missed ++ [l]) := by
-          simp only [sortLoop, hr]
+          simp only [sortLoop, hmr]
           simp
         rw [hloop]
-        refine ⟨?_, ?_⟩
+        refine ⟨ih1, ?_, ?_⟩
         · intro he
-          obtain ⟨ha, _⟩ := ih2 he
-          cases ha
+          rcases ih2 he with ⟨ha, _⟩ | ⟨l', hl', hm'⟩
+          · cases ha
+          · exact Or.inr ⟨l', List.mem_cons_of_mem _ hl', hm'⟩
         · intro st' missed' hd
           obtain ⟨hinv', ⟨blocks, hout, hsteps⟩, hmissed, hnd, _⟩ := ih3 st' missed' hd
           refine ⟨hinv', ⟨b :: blocks, ?_, ?_⟩, ?_, ?_, ?_⟩
@@ -822,46 +859,28 @@ theorem sortLoop_spec {inp : List Entry} (allow : Bool) :
             simp [missedOf, hres]
           · intro l' hl'
             rcases List.mem_cons.mp hl' with rfl | hl''
-            · rw [hres]; simp
+            · exact Or.inr hres
             · exact hnd l' hl''
           · intro ha; cases ha
-    | diverge =>
-      have hloop : sortLoop inp (moveFuel inp) allow (l :: ls) st missed = .diverge := by
-        simp only [sortLoop, hr]
+    | cycle =>
+      have hres : resolve inp (moveFuel inp) [] (cleanEntryName l) = .cycle := hstat.symm
+      have hcyc : ReachesCycle inp (cleanEntryName l) := resolve_cycle _ [] _ (by simp) hres
+      have hloop : sortLoop inp (moveFuel inp) allow (l :: ls) st missed = .err := by
+        simp only [sortLoop, hmr]
       rw [hloop]
-      refine ⟨?_, ?_⟩
-      · intro h'; cases h'
-      · intro _ _ h'; cases h'
+      refine ⟨by simp, fun _ => Or.inr ⟨l, List.mem_cons_self .., hcyc⟩, ?_⟩
+      intro _ _ h'; cases h'
+    | diverge => exact absurd hstat.symm (resolve_terminates inp _)
 
-/-- … and the loop does return when the parent/hardlink graph has no cycle. -/
-theorem sortLoop_terminates {inp : List Entry} (hnc : NoLinkCycle inp) (allow : Bool) :
-    ∀ ls st missed, Inv inp st → sortLoop inp (moveFuel inp) allow ls st missed ≠ .diverge := by
-  intro ls
-  induction ls with
-  | nil => intro st missed _; simp [sortLoop]
-  | cons l ls ih =>
-    intro st missed h
-    have hm := moveRec_spec inp (moveFuel inp) (cleanEntryName l) st h
-    have hstat := hm.status
-    rcases hr : moveRec inp (moveFuel inp) (cleanEntryName l) st with ⟨st1, s1⟩
-    rw [hr] at hm hstat
-    simp only at hstat
-    cases s1 with
-    | ok =>
-      have hloop : sortLoop inp (moveFuel inp) allow (l :: ls) st missed =
-          sortLoop inp (moveFuel inp) allow ls st1 missed := by
-        simp only [sortLoop, hr]
-      rw [hloop]; exact ih st1 missed hm.inv
-    | notFound =>
-      cases allow with
-      | false => simp [sortLoop, hr]
-      | true =>
-        have hloop : sortLoop inp (moveFuel inp) true (l :: ls) st missed =
-            sortLoop inp (moveFuel inp) true ls st1 (missed ++ [l]) := by
-          simp only [sortLoop, hr]
-          simp
-        rw [hloop]; exact ih st1 _ hm.inv
-    | diverge => exact absurd hstat.symm (resolve_terminates hnc _)
+theorem moveRecOld_link {inp : List Entry} {k : Name} {e : Entry} (f : Nat) (st : MState)
+    (hk : k ≠ []) (hg : get inp k = some e) (hl : e.isLink = true) :
+    moveRecOld inp (f + 1) k st =
+      (let r1 := moveRecOld inp f k.dropLast st
+       if r1.2 ≠ .ok then r1 else
+       let r2 := moveRecOld inp f (cleanEntryName e.linkName) r1.1
+       if r2.2 ≠ .ok then r2 else
+       if r2.1.picked.contains k then (r2.1, .ok) else (r2.1.add k e, .ok)) := by
+  simp [moveRecOld, hk, hg, hl]
 
 /-! ## Dumping the rest -/
 
@@ -1220,11 +1239,13 @@ theorem sortEntries_nil (es : List Entry) (allow : Bool) :
     sortEntries es [] allow = .ok (landmarkEntry noPrefetchLandmark :: importTar es) [] := by
   simp [sortEntries, sortLoop, dump, landmarkFor]
 
-/-- Everything the property theorems need about a run of `sortEntries` that returned, in one
-place — for every tar and every list. -/
+/-- Everything the property theorems need about a run of `sortEntries`, in one place — for every
+tar and every list. -/
 theorem sortEntries_structure {es : List Entry} (prio : List String) (allow : Bool) :
+    sortEntries es prio allow ≠ .diverge ∧
     (sortEntries es prio allow = .err →
-      allow = false ∧ ∃ l ∈ prio, Missing (importTar es) (cleanEntryName l)) ∧
+      (allow = false ∧ ∃ l ∈ prio, Missing (importTar es) (cleanEntryName l)) ∨
+      (∃ l ∈ prio, ReachesCycle (importTar es) (cleanEntryName l))) ∧
     (∀ out missed, sortEntries es prio allow = .ok out missed →
       ∃ blocks,
         out = blocks.flatten ++ landmarkFor prio ::
@@ -1234,20 +1255,19 @@ theorem sortEntries_structure {es : List Entry} (prio : List String) (allow : Bo
         KeysNodup blocks.flatten ∧
         ClosedR (importTar es) blocks.flatten.reverse ∧
         missed = missedOf (importTar es) prio ∧
-        (∀ l ∈ prio, resolve (importTar es) (moveFuel (importTar es)) (cleanEntryName l) ≠ .diverge) ∧
+        (∀ l ∈ prio, resolve (importTar es) (moveFuel (importTar es)) [] (cleanEntryName l) = .ok ∨
+          resolve (importTar es) (moveFuel (importTar es)) [] (cleanEntryName l) = .notFound) ∧
         (allow = false → ∀ l ∈ prio, ¬ Missing (importTar es) (cleanEntryName l))) := by
-  obtain ⟨h2, h3⟩ := sortLoop_spec (inp := importTar es) allow prio ⟨[], []⟩ [] (Inv.empty _)
+  obtain ⟨h1, h2, h3⟩ := sortLoop_spec (inp := importTar es) allow prio ⟨[], []⟩ [] (Inv.empty _)
   unfold sortEntries
   simp only
   cases hl : sortLoop (importTar es) (moveFuel (importTar es)) allow prio ⟨[], []⟩ [] with
-  | diverge =>
-    refine ⟨by simp, ?_⟩
-    intro out missed h; cases h
+  | diverge => exact absurd hl h1
   | err =>
-    refine ⟨fun _ => h2 hl, ?_⟩
+    refine ⟨by simp, fun _ => h2 hl, ?_⟩
     intro out missed h; cases h
   | done st missed' =>
-    refine ⟨by simp, ?_⟩
+    refine ⟨by simp, by simp, ?_⟩
     intro out missed h
     simp only [Outcome.ok.injEq] at h
     obtain ⟨hout, hmissed⟩ := h
@@ -1261,26 +1281,16 @@ theorem sortEntries_structure {es : List Entry} (prio : List String) (allow : Bo
     · rw [← hblocks]; exact hinv.closed
     · rw [← hmissed, hm]
 
-theorem sortEntries_ne_diverge {es : List Entry} (hnc : NoLinkCycle (importTar es))
-    (prio : List String) (allow : Bool) : sortEntries es prio allow ≠ .diverge := by
-  have := sortLoop_terminates hnc allow prio ⟨[], []⟩ [] (Inv.empty _)
-  unfold sortEntries
-  simp only
-  cases hl : sortLoop (importTar es) (moveFuel (importTar es)) allow prio ⟨[], []⟩ [] with
-  | diverge => exact absurd hl this
-  | err => simp
-  | done st missed' => simp
-
-/-- For a name whose status is not `diverge`: it is reported missing iff it is `Missing`. -/
-theorem resolve_notFound_iff {inp : List Entry} {f : Nat} {k : Name}
-    (h : resolve inp f k ≠ .diverge) : resolve inp f k = .notFound ↔ Missing inp k := by
+/-- For a name whose status is `ok` or `notFound`: it is reported missing iff it is `Missing`. -/
+theorem resolve_notFound_iff {inp : List Entry} {f : Nat} {vis : List Name} {k : Name}
+    (h : resolve inp f vis k = .ok ∨ resolve inp f vis k = .notFound) :
+    resolve inp f vis k = .notFound ↔ Missing inp k := by
   constructor
-  · exact resolve_notFound f k
+  · exact resolve_notFound f vis k
   · intro hm
-    cases hr : resolve inp f k with
-    | ok => exact absurd hm (resolve_ok f k hr)
-    | notFound => rfl
-    | diverge => exact absurd hr h
+    rcases h with h | h
+    · exact absurd hm (resolve_ok f vis k h)
+    · exact h
 
 theorem stepsOK_append {inp : List Entry} : ∀ (p q : List String) (before : List Entry)
     (blocks : List (List Entry)), StepsOK inp (p ++ q) before blocks →
